@@ -12,6 +12,10 @@ CONFIGS = {
     ('aperture n=3 min_size=1 contraction/expansion', {'kind': 'aperture', 'n': 3, 'min_size': 1,
                                                        'ops': ['D', 'C', 'Down', 'Up', 'Adv', 'Leave', 'Join'],
                                                        'max_out': 4, 'max_down': 1, 'advs': [1, 3], 'max_notifications': 2}, 7),
+    ('heap n=3, members addressed by a named additional endpoint', {'kind': 'heap', 'n': 3, 'endpoint_name': 'thrift',
+                                                                    'ops': ['D', 'C', 'Join', 'Leave'], 'max_out': 3, 'max_notifications': 3}, 6),
+    ('aperture n=3, members addressed by a named additional endpoint', {'kind': 'aperture', 'n': 3, 'min_size': 2, 'endpoint_name': 'thrift',
+                                                                        'ops': ['D', 'C', 'Join', 'Leave'], 'max_out': 3, 'max_notifications': 2}, 6),
     ('heap n=3, the sink above the balancer raises in / dispatches from its reply handler',
      {'kind': 'heap', 'n': 3, 'ops': ['D', 'C', 'CX', 'CD', 'Leave'], 'max_out': 3, 'max_notifications': 2}, 7),
   ],
